@@ -3,6 +3,7 @@ import PhpVerif.Model.Version
 import PhpVerif.Gen.VersionFacts
 import PhpVerif.Model.NewLines
 import PhpVerif.Model.Glue
+import PhpVerif.Spec.NameRes
 /-
 Line-protocol driver: runs the executable model definitions on the operations the Go harness
 also runs on the real code.  One request per line, one answer per line.  Core only (no Mathlib)
@@ -62,6 +63,31 @@ def parseStackOps (s : String) : List Glue.StackOp :=
       | _ => none
     else if w.startsWith "r" then (w.drop 1).toString.toNat?.map Glue.StackOp.ret
     else none)
+
+def hexDigit (n : Nat) : Char := if n < 10 then Char.ofNat (48 + n) else Char.ofNat (87 + n)
+
+def toHex (b : Bytes) : String :=
+  if b.isEmpty then "-" else String.ofList (b.flatMap (fun x => [hexDigit (x.toNat / 16), hexDigit (x.toNat % 16)]))
+
+def parseKind (c : String) : Option Nsr.AKind :=
+  if c == "c" then some .cls else if c == "f" then some .fn else if c == "k" then some .cst else none
+
+def parseHist (h : String) : List Nsr.UseDecl :=
+  if h == "-" then [] else (h.splitOn ";").filterMap (fun w =>
+    match w.splitOn ":" with
+    | [k, t, a] => (parseKind k).map (fun k => { kind := k, target := unhex t, alias := unhex a })
+    | _ => none)
+
+def parseRef (q : String) : Option (Nsr.NameRef × Nsr.AKind) :=
+  match q.splitOn ":" with
+  | [fk, parts] =>
+    let ps := if parts == "-" then [] else (parts.splitOn ",").map unhex
+    let form := (fk.take 1).toString
+    match parseKind (fk.drop 1).toString with
+    | some k =>
+      if form == "q" then some (.fq ps, k) else if form == "r" then some (.rel ps, k) else if form == "p" then some (.plain ps, k) else none
+    | none => none
+  | _ => none
 
 def handle (ws : List String) : String :=
   match ws with
@@ -134,6 +160,15 @@ def handle (ws : List String) : String :=
     match Glue.runOps (parseStackOps ops) { stack := [], top := 0, cs := 100, p := 0 } with
     | .ok s => s!"{s.top} {s.cs} {s.p} {intsStr s.stack}"
     | .error f => faultStr f
+  | ["nsr", nsn, hist, q] =>
+    match parseRef q with
+    | some (r, k) => toHex (((Nsr.Ns.new (unhex nsn)).run (parseHist hist)).resolve r k)
+    | none => "bad-op"
+  | ["nsrspec", nsn, hist, q] =>
+    match parseRef q with
+    | some (r, k) => toHex (Spec.phpResolve (unhex nsn) (parseHist hist) r k)
+    | none => "bad-op"
+  | ["nsrdecl", nsn, x] => toHex (Spec.withNs (unhex nsn) (unhex x))
   | ["nlappend", ds, p] =>
     match p.toNat? with
     | some p => natsStr (NL.append (parseNats ds) p)
